@@ -34,6 +34,8 @@ type VerifRig struct {
 	// PanicVal / PanicStack are set when the read loop panicked (readable after Exited() is closed).
 	PanicVal   string
 	PanicStack string
+	// OtherStream, when >= 0, is the saved offset of a second stream ("other") of the file for start=continue
+	OtherStream int64
 }
 
 // VerifJob is a handle for one job of the rig.
@@ -55,7 +57,7 @@ func VerifNewRig(maxEventSize int, cutOff bool, lg *zap.SugaredLogger) *VerifRig
 	)
 	cfg := &Config{MaxFiles: 4, Paths: Paths{Include: []string{"/verif-nonexistent/*"}}}
 	jp := NewJobProvider(cfg, metrics, lg)
-	return &VerifRig{
+	return &VerifRig{OtherStream: -1,
 		jp:     jp,
 		w:      &worker{maxEventSize: maxEventSize, cutOffEventByLimit: cutOff},
 		logger: lg,
@@ -125,6 +127,9 @@ func (r *VerifRig) Open(filename string, start string, savedOffset int64) (*Veri
 			sourceID: sid,
 			streams:  map[pipeline.StreamName]int64{pipeline.DefaultStreamName: savedOffset},
 		}}
+		if r.OtherStream >= 0 {
+			r.jp.loadedOffsets[sid].streams["other"] = r.OtherStream
+		}
 	default:
 		return nil, fmt.Errorf("unknown start %q", start)
 	}
